@@ -203,5 +203,8 @@ def v(unit, fn, clause, source):
 
 
 STATIC = [
+    v("stack", "reset_stack", "resetting the stack after a failed evaluation removes exactly the frames above `level`, top first, never one below it, and touches nothing else of the frame list", "vm/src/thread.rs::reset_stack"),
+    dict(engine="verus", unit="stack", function="reset_stack_values", name="C06/thread/reset_stack_values", source="vm/src/thread.rs::reset_stack",
+         clause="the values that belonged to the removed frames are removed with them (the stack used by the failed run is reclaimed)"),
     v("stack", "StackFrame::exit_scope", "a locked extern frame is never popped (stack returned untouched); otherwise exactly the top frame is removed, values untouched", "vm/src/stack.rs::StackFrame::exit_scope"),
 ]
